@@ -172,6 +172,10 @@ pub enum Ws {
     Spaces(u8),
     NewlineIndent(u8),
     Tab,
+    /// CR LF line ends (XML 1.0 2.11: equivalent to LF) followed by an indent
+    CrLfIndent(u8),
+    /// a lone carriage return
+    Cr,
 }
 
 impl Ws {
@@ -181,6 +185,8 @@ impl Ws {
             Ws::Spaces(n) => " ".repeat((*n).max(1) as usize),
             Ws::NewlineIndent(n) => format!("\n{}", " ".repeat(*n as usize * depth)),
             Ws::Tab => "\t".into(),
+            Ws::CrLfIndent(n) => format!("\r\n{}", " ".repeat(*n as usize * depth)),
+            Ws::Cr => "\r".into(),
         }
     }
     pub fn is_none(&self) -> bool {
@@ -288,6 +294,8 @@ fn ws_strategy() -> impl Strategy<Value = Ws> {
         2 => (1u8..4).prop_map(Ws::Spaces),
         3 => (0u8..5).prop_map(Ws::NewlineIndent),
         1 => Just(Ws::Tab),
+        1 => (0u8..3).prop_map(Ws::CrLfIndent),
+        1 => Just(Ws::Cr),
     ]
 }
 
